@@ -133,6 +133,14 @@ func (f *fctx) stateTerm(s *channel.State) string {
 		short = s.Assets[i].Equal(f.assets[i]) && s.Backends[i] == 0
 	}
 	if !short {
+		// states of virtual channels: the file's assets, no app, no data, another id
+		virt := channel.IsNoApp(s.App) && channel.IsNoData(s.Data) && len(s.Assets) == len(f.assets) && len(s.Backends) == len(f.assets)
+		for i := 0; virt && i < len(f.assets); i++ {
+			virt = s.Assets[i].Equal(f.assets[i]) && s.Backends[i] == 0
+		}
+		if virt {
+			return hx.App("V0", f.idTerm(s.ID), hx.N(s.Version), balsTerm(s.Balances), hx.ListOf(s.Locked, f.subAllocTerm), hx.Bool(s.IsFinal))
+		}
 		return cv.State(s)
 	}
 	return hx.App("S0", hx.N(s.Version), balsTerm(s.Balances), hx.ListOf(s.Locked, f.subAllocTerm), hx.Bool(s.IsFinal))
@@ -241,6 +249,9 @@ func (f *fctx) header() string {
 	fmt.Fprintf(&sb, "Definition S0 := mkS %s %s %s %s.\n", hx.Hex(id[:]),
 		hx.ListOf(f.assets, func(channel.Asset) string { return "0%N" }),
 		hx.ListOf(f.assets, func(a channel.Asset) string { return hx.N(cv.AssetID(a)) }), cv.AppDef(f.params.App))
+	fmt.Fprintf(&sb, "Definition V0 (id : bytes) := mkS id %s %s None.\n",
+		hx.ListOf(f.assets, func(channel.Asset) string { return "0%N" }),
+		hx.ListOf(f.assets, func(a channel.Asset) string { return hx.N(cv.AssetID(a)) }))
 	return sb.String()
 }
 
